@@ -303,7 +303,9 @@ func (e *Engine) defaultArgs(fn *ssa.Function) []AV {
 
 // publish rewrites fresh instance paths: once an instance is handed to another
 // goroutine (or returned inside a closure) it is shared.
-func (e *Engine) publish(av AV) AV {
+func (e *Engine) publish(av AV) AV { return e.publishRec(av, 0, map[int]bool{}) }
+
+func (e *Engine) publishRec(av AV, depth int, seen map[int]bool) AV {
 	out := AV{}
 	for t := range av {
 		if t.K == tSnap {
@@ -312,6 +314,13 @@ func (e *Engine) publish(av AV) AV {
 		if t.P != "" && isFresh(t.P) {
 			if lt := e.pathType[t.P]; lt != nil {
 				t.P = e.instPath(lt, "shared#"+accessOf(t.P)[len("new#"):])
+			}
+		}
+		if t.K == tCell && depth < 4 && !seen[t.N] {
+			// what the shared cell holds is shared as well
+			seen[t.N] = true
+			if c := e.cells[t.N]; c != nil {
+				e.cells[t.N] = e.publishRec(c, depth+1, seen)
 			}
 		}
 		out.add(t)
